@@ -36,9 +36,9 @@ type (
 		Enum                 []any    `json:"enum,omitempty" yaml:"enum,omitempty"`
 		Format               string   `json:"format,omitempty" yaml:"format,omitempty"`
 		Pattern              string   `json:"pattern,omitempty" yaml:"pattern,omitempty"`
-		ExclusiveMinimum     *float64 `json:"exclusiveMinimum,omitempty" yaml:"exclusiveMinimum,omitempty"`
+		ExclusiveMinimum     bool     `json:"exclusiveMinimum,omitempty" yaml:"exclusiveMinimum,omitempty"`
 		Minimum              *float64 `json:"minimum,omitempty" yaml:"minimum,omitempty"`
-		ExclusiveMaximum     *float64 `json:"exclusiveMaximum,omitempty" yaml:"exclusiveMaximum,omitempty"`
+		ExclusiveMaximum     bool     `json:"exclusiveMaximum,omitempty" yaml:"exclusiveMaximum,omitempty"`
 		Maximum              *float64 `json:"maximum,omitempty" yaml:"maximum,omitempty"`
 		MinLength            *int     `json:"minLength,omitempty" yaml:"minLength,omitempty"`
 		MaxLength            *int     `json:"maxLength,omitempty" yaml:"maxLength,omitempty"`
@@ -454,7 +454,9 @@ func (s *Schema) Dup() *Schema {
 		Format:               s.Format,
 		Pattern:              s.Pattern,
 		Minimum:              s.Minimum,
+		ExclusiveMinimum:     s.ExclusiveMinimum,
 		Maximum:              s.Maximum,
+		ExclusiveMaximum:     s.ExclusiveMaximum,
 		MinLength:            s.MinLength,
 		MaxLength:            s.MaxLength,
 		MinItems:             s.MinItems,
@@ -502,18 +504,7 @@ func initAttributeValidation(s *Schema, at *expr.AttributeExpr) {
 		s.Format = string(val.Format)
 	}
 	s.Pattern = val.Pattern
-	if val.ExclusiveMinimum != nil {
-		s.ExclusiveMinimum = val.ExclusiveMinimum
-	}
-	if val.Minimum != nil {
-		s.Minimum = val.Minimum
-	}
-	if val.ExclusiveMaximum != nil {
-		s.ExclusiveMaximum = val.ExclusiveMaximum
-	}
-	if val.Maximum != nil {
-		s.Maximum = val.Maximum
-	}
+	s.SetBounds(val)
 	if val.MinLength != nil {
 		if _, ok := at.Type.(*expr.Array); ok {
 			s.MinItems = val.MinLength
@@ -535,6 +526,28 @@ func initAttributeValidation(s *Schema, at *expr.AttributeExpr) {
 			}
 		}
 		s.Required = append(s.Required, v)
+	}
+}
+
+// SetBounds initializes the numeric bounds of the schema. JSON schema draft 4
+// (used by both Swagger 2.0 and OpenAPI 3.0) expresses an exclusive bound as the
+// bound itself ("minimum", "maximum") together with a boolean "exclusiveMinimum"
+// or "exclusiveMaximum". When both an inclusive and an exclusive bound are set
+// the tighter one is kept.
+func (s *Schema) SetBounds(val *expr.ValidationExpr) {
+	if val.Minimum != nil {
+		s.Minimum = val.Minimum
+	}
+	if val.ExclusiveMinimum != nil && (s.Minimum == nil || *val.ExclusiveMinimum >= *s.Minimum) {
+		s.Minimum = val.ExclusiveMinimum
+		s.ExclusiveMinimum = true
+	}
+	if val.Maximum != nil {
+		s.Maximum = val.Maximum
+	}
+	if val.ExclusiveMaximum != nil && (s.Maximum == nil || *val.ExclusiveMaximum <= *s.Maximum) {
+		s.Maximum = val.ExclusiveMaximum
+		s.ExclusiveMaximum = true
 	}
 }
 
